@@ -236,6 +236,35 @@ func rulePrunesImpl(scopeFiles func(file string) bool, ruleID string, min int, p
 					}
 					return true
 				})
+				// a local computed from the node (`listed := toSchemaType(n)`, `clone := *rec; t = &clone`) stands for it:
+				// visiting ITS children is the descent
+				for changed := true; changed; {
+					changed = false
+					ast.Inspect(vl.lit.Body, func(x ast.Node) bool {
+						as, ok := x.(*ast.AssignStmt)
+						if !ok || len(as.Lhs) != len(as.Rhs) {
+							return true
+						}
+						for i, l := range as.Lhs {
+							o := identObj(info, l)
+							if o == nil || nodeAliases[o] || !types.Implements(o.Type(), nodeIface) {
+								continue
+							}
+							mentions := false
+							ast.Inspect(as.Rhs[i], func(y ast.Node) bool {
+								if id, ok := y.(*ast.Ident); ok && nodeAliases[info.ObjectOf(id)] {
+									mentions = true
+								}
+								return !mentions
+							})
+							if mentions {
+								nodeAliases[o] = true
+								changed = true
+							}
+						}
+						return true
+					})
+				}
 				// blocks that descend completely
 				desc := map[*cfg.Block]bool{}
 				for _, b := range fc.G.Blocks {
